@@ -96,6 +96,9 @@ Params(f) ==
                          trad_bc_ev |-> Pick({<<1000, 1>>, <<300, 1>>}, {})]
     [] f = "Rectangle" -> [kappa |-> Pick({<<1, 1>>, <<1, 2>>}, {}), a |-> Pick({<<2, 1>>, <<3, 1>>}, {}), b |-> Pick({<<2, 1>>, <<1, 1>>}, {}),
                            Ttop |-> Pick({<<1, 1>>, <<3, 1>>}, {})]
+    [] f = "CylSandwich" -> \* quarter annulus a < r < b, 0 < theta < pi/2; 8 s per call (the eigenvalues are recomputed by every call)
+                            [kappa |-> Pick({<<1, 1>>}, {<<1, 2>>}), a |-> {<<1, 4>>}, b |-> Pick({<<17, 20>>}, {<<1, 1>>}), T0 |-> Pick({<<0, 1>>, <<2, 1>>}, {}),
+                             T1 |-> Pick({<<1, 1>>}, {<<3, 1>>})]
     [] f = "Hutchens2" -> [k |-> Pick({<<1, 1>>, <<2, 1>>}, {}), g0 |-> Pick({<<3, 1>>, <<0, 1>>}, {}), Tb |-> Pick({<<5, 1>>, <<2, 1>>}, {}),
                            T0 |-> Pick({<<2, 1>>, <<1, 1>>}, {}), TL |-> Pick({<<1, 1>>, <<3, 1>>}, {}), b |-> Pick({<<1, 1>>, <<3, 2>>}, {}), L |-> Pick({<<2, 1>>, <<1, 1>>}, {})]
     [] f = "Hutchens1" -> [k |-> Pick({<<1, 1>>, <<2, 1>>}, {}), cp |-> Pick({<<1, 1>>, <<1, 2>>}, {}), rho |-> Pick({<<1, 1>>, <<8, 1>>}, {}),
@@ -141,13 +144,14 @@ TimesOf(f, p) ==
     [] f = "SuOlson" -> Pick({<<1, 10>>, <<1, 1>>, <<10, 1>>}, {<<1, 100>>, <<3, 1>>})     \* dimensionless time tau
     [] f = "Guderley" -> Pick({<<2, 5>>, <<1, 1>>}, {<<13, 20>>, <<3, 2>>})      \* the shock collapses at t = 0.750024322: before and after
     [] f \in {"Rod1D", "Hutchens1", "RodNH", "Sandwich", "Rectangle", "Hutchens2"} -> Pick({<<1, 10>>, <<1, 2>>}, {<<1, 100>>})
+    [] f = "CylSandwich" -> Pick({<<1, 10>>}, {<<1, 2>>})
     [] OTHER -> Times
 
 (* configurations whose closed form is defined (no division by zero, no  *)
 (* fractional power of a negative number): the mathematics, not a        *)
 (* documented restriction of the solver                                  *)
 Geom(f, p) == IF "geometry" \in DOMAIN p THEN p.geometry
-              ELSE IF f \in RiemannFams \cup {"RiemannJWL"} \cup {"EHEP", "Mader", "EPpiston", "Rod1D", "RodNH", "Sandwich", "SuOlson", "RadShock", "SDRZ"} THEN 1 ELSE IF f = "Riemann2D" THEN 2 ELSE IF f = "BBNoh" THEN p.symmetry + 1 ELSE IF f = "DSDcyl" THEN 2 ELSE 3
+              ELSE IF f \in RiemannFams \cup {"RiemannJWL"} \cup {"EHEP", "Mader", "EPpiston", "Rod1D", "RodNH", "Sandwich", "SuOlson", "RadShock", "SDRZ"} THEN 1 ELSE IF f \in {"Riemann2D", "CylSandwich"} THEN 2 ELSE IF f = "BBNoh" THEN p.symmetry + 1 ELSE IF f = "DSDcyl" THEN 2 ELSE 3
 Defined(f, p, t) ==
   LET k == Geom(f, p) - 1 IN
   CASE f \in RiemannFams -> /\ ~(QEq(p.pl, p.pr) /\ QEq(p.ul, p.ur))                   \* a pure contact has no acoustic waves
